@@ -466,6 +466,38 @@ pub fn file_op(x: &mut Exec, op: &Value) -> Vec<Value> {
         };
         return vec![ev];
     }
+    // `ehdr` is a public field of the handle: the caller writes to it between calls
+    if op["op"] == "ehdr_edit" {
+        fn edit<E: EndianParse>(h: &mut elf::file::FileHeader<E>, op: &Value) {
+            if let Some(v) = op.get("class").and_then(|v| v.as_u64()) { h.class = if v == 32 { Class::ELF32 } else { Class::ELF64 }; }
+            if let Some(v) = op.get("e_shstrndx") { h.e_shstrndx = rd_w(v) as u16; }
+            if let Some(v) = op.get("e_shnum") { h.e_shnum = rd_w(v) as u16; }
+            if let Some(v) = op.get("e_phnum") { h.e_phnum = rd_w(v) as u16; }
+            if let Some(v) = op.get("e_shoff") { h.e_shoff = rd_w(v); }
+            if let Some(v) = op.get("e_phoff") { h.e_phoff = rd_w(v); }
+            if let Some(v) = op.get("e_shentsize") { h.e_shentsize = rd_w(v) as u16; }
+            if let Some(v) = op.get("e_phentsize") { h.e_phentsize = rd_w(v) as u16; }
+        }
+        match &mut x.bytes {
+            None => {}
+            Some(BytesSession::LE(eb, _)) => edit(&mut eb.ehdr, op),
+            Some(BytesSession::BE(eb, _)) => edit(&mut eb.ehdr, op),
+            Some(BytesSession::Any(eb, _)) => {
+                edit(&mut eb.ehdr, op);
+                if op.get("flip_order").is_some() { eb.ehdr.endianness = match eb.ehdr.endianness { AnyEndian::Little => AnyEndian::Big, AnyEndian::Big => AnyEndian::Little }; }
+            }
+        }
+        match &mut x.stream {
+            None => {}
+            Some(crate::stream::StreamSession::LE(es, _)) => edit(&mut es.ehdr, op),
+            Some(crate::stream::StreamSession::BE(es, _)) => edit(&mut es.ehdr, op),
+            Some(crate::stream::StreamSession::Any(es, _)) => {
+                edit(&mut es.ehdr, op);
+                if op.get("flip_order").is_some() { es.ehdr.endianness = match es.ehdr.endianness { AnyEndian::Little => AnyEndian::Big, AnyEndian::Big => AnyEndian::Little }; }
+            }
+        }
+        return vec![event(op, json!({"out":"ok"}), 0, 0)];
+    }
     match &x.bytes {
         None => vec![event(op, json!({"out":"closed"}), 0, 0)],
         Some(BytesSession::LE(eb, b)) => vec![bytes_q(eb, b, op)],
